@@ -63,10 +63,13 @@ Parent ==
 Parts2 == {PtrEscape(<<97>>), PtrEscape(<<>>), PrintPtr(<<<<49>>>>), PtrEscape(<<126>>)}
 Next == (\E part \in Parts : \E how \in {"join", "slash"} : Join(part, how)) \/ Parent
         \/ (\E p1 \in Parts2, p2 \in Parts2 : Join2(p1, p2))
-NextSim == \E c \in {RandomElement(1..5)} :
+\* a random element, drawn anew at every evaluation: the set mentions the state because TLC evaluates an expression
+\* without variables once and for all (a walk would repeat one choice for ever)
+Pick(S) == RandomElement(IF Len(hist) >= 0 THEN S ELSE {})
+NextSim == \E c \in {Pick(1..5)} :
              IF c = 1 THEN Parent
-             ELSE IF c = 2 THEN \E p1 \in {RandomElement(Parts)}, p2 \in {RandomElement(Parts)} : Join2(p1, p2)
-             ELSE \E part \in {RandomElement(Parts)} : \E how \in {RandomElement({"join", "slash"})} : Join(part, how)
+             ELSE IF c = 2 THEN \E p1 \in {Pick(Parts)}, p2 \in {Pick(Parts)} : Join2(p1, p2)
+             ELSE \E part \in {Pick(Parts)} : \E how \in {Pick({"join", "slash"})} : Join(part, how)
 Spec == Init /\ [][Next]_vars
 
 \* ---- laws of the design -----------------------------------------------------
